@@ -182,3 +182,69 @@ func Inspect(gid int64, gap time.Duration, activity func() int64) Verdict {
 	v.Reason = "caller parked at the same frame in two dumps; no goleveldb goroutine can make progress; no storage or log activity"
 	return v
 }
+
+// WaitOrInspect waits for done. If it has not happened after first, the wait turns into
+// inspections: two dumps gap apart; a verdict is returned only if progress() did not move,
+// some goroutine selected by match is parked at the same goleveldb frame in both dumps and
+// no non-client goleveldb goroutine is active. Otherwise it keeps waiting; after rounds
+// inspections without a verdict it gives up (ok=false, verdict=nil: inconclusive).
+func WaitOrInspect(done <-chan struct{}, first, gap time.Duration, rounds int, progress func() int64, match func(G) bool) (ok bool, v *Verdict) {
+	select {
+	case <-done:
+		return true, nil
+	case <-time.After(first):
+	}
+	for r := 0; r < rounds; r++ {
+		p1 := progress()
+		t1, g1 := Dump()
+		select {
+		case <-done:
+			return true, nil
+		case <-time.After(gap):
+		}
+		p2 := progress()
+		t2, g2 := Dump()
+		if p1 != p2 {
+			continue
+		}
+		// candidates parked in both dumps at the same frame
+		var parked *G
+		for i := range g2 {
+			if !match(g2[i]) || !blockedState(g2[i].State) {
+				continue
+			}
+			for j := range g1 {
+				if g1[j].ID == g2[i].ID && g1[j].State == g2[i].State && firstLevelDB(g1[j].Frames) == firstLevelDB(g2[i].Frames) && firstLevelDB(g2[i].Frames) != "" {
+					parked = &g2[i]
+				}
+			}
+		}
+		if parked == nil {
+			continue
+		}
+		vd := Verdict{Parked: firstLevelDB(parked.Frames), ParkedIn: parked.State, Dump1: strings.Split(t1, "\n"), Dump2: strings.Split(t2, "\n")}
+		for _, g := range g2 {
+			f := firstLevelDB(g.Frames)
+			if f == "" || idleByDesign(g) || g.ID == parked.ID {
+				continue
+			}
+			if blockedState(g.State) {
+				vd.Others = append(vd.Others, fmt.Sprintf("%s [%s]", f, g.State))
+			} else if !isClient(g) {
+				vd.Active = append(vd.Active, fmt.Sprintf("%s [%s]", f, g.State))
+			}
+		}
+		if len(vd.Active) > 0 {
+			continue
+		}
+		vd.Stable = true
+		vd.Reason = "parked at the same frame in two dumps; no progress; no goleveldb goroutine can make progress"
+		return false, &vd
+	}
+	select {
+	case <-done:
+		return true, nil
+	default:
+	}
+	return false, nil
+}
